@@ -1,7 +1,7 @@
 (* C18 -- reading never writes (static part: call graph GENERATED from /repo on every run; the dynamic part -- requests
    actually transmitted, invalid setter arguments -- is checked on the real classes against the simulated inverter). *)
-From Coq Require Import List String Bool.
-From GW Require Import CallGen CallProofs.
+From Coq Require Import ZArith List String Bool.
+From GW Require Import Prelude Sensors Settings SettingsGen SchedDef Modes ModesGen ModesInst ModesProofs GuardedProofs TwoObj TwoObjInst TwoObjProofs TwoObjModes CallGen CallProofs.
 Import ListNotations.
 
 Theorem C18_monitoring_api_constructs_reads_only : api_read_only ET_graph = true /\ api_read_only DT_graph = true /\ api_read_only ES_graph = true.
@@ -18,6 +18,31 @@ Theorem C18_setters_do_reach_writes :
   existsb (fun k => match k with CkWrite => true | _ => false end) (kinds_reached DT_graph "set_grid_export_limit") = true.
 Proof. exact setters_reach_writes. Qed.
 
+(* setters called with out-of-range arguments transmit nothing and change nothing (guards GENERATED from the current source):
+   negative export limit (ET, DT), depth of discharge outside 0..100 (ET), eco-mode power or SoC outside 0..100 *)
+Theorem C18_et_export_limit_rejects : forall r x, (x < 0)%Z -> run_gsetter et_settings et_ws (the et_export_limit) x r = Ok (r, []).
+Proof. exact et_export_limit_rejects. Qed.
+
+Theorem C18_dt_export_limit_rejects : forall tp r x, (x < 0)%Z -> run_gsetter (dt_settings tp) dt_ws (the dt_export_limit) x r = Ok (r, []).
+Proof. exact dt_export_limit_rejects. Qed.
+
+Theorem C18_et_dod_rejects : forall r x, (x < 0 \/ 100 < x)%Z -> run_gsetter et_settings et_ws (the et_dod) x r = Ok (r, []).
+Proof. exact et_dod_rejects. Qed.
+
+Theorem C18_eco_mode_arguments_rejected : forall a b who (ch : bool) p soc r ds, (p < 0 \/ 100 < p \/ soc < 0 \/ 100 < soc)%Z ->
+  mode_steps (et_tctx a b) who p soc (et_set_mode (if ch then MEcoCharge else MEcoDischarge)) r ds = (r, ds, (Exc EValue : res unit), ([] : list tx)).
+Proof. exact eco_mode_arguments_rejected. Qed.
+
+(* the getters of the two-object model transmit reads only *)
+Theorem C18_model_reads_transmit_no_write : forall a b w who o, (match o with ORead _ | OGetMode => True | _ => False end) ->
+  forallb (fun t => match t with TxRead _ _ => true | TxWrite _ _ => false end) (snd (snd (step (et_tctx a b) w who o))) = true.
+Proof. exact model_reads_transmit_no_write. Qed.
+
 Print Assumptions C18_monitoring_api_constructs_reads_only.
 Print Assumptions C18_entry_points_read_only.
 Print Assumptions C18_setters_do_reach_writes.
+Print Assumptions C18_et_export_limit_rejects.
+Print Assumptions C18_dt_export_limit_rejects.
+Print Assumptions C18_et_dod_rejects.
+Print Assumptions C18_eco_mode_arguments_rejected.
+Print Assumptions C18_model_reads_transmit_no_write.
